@@ -82,13 +82,14 @@ def make(rng, kind, d=2):
     if kind in ("PiecewiseAffine", "PythonPWA", "PWA_degenerate_triangle"):
         s, t = pwa_pair(rng)
         if kind == "PWA_degenerate_triangle":
-            # the source mesh lists a zero-area triangle (a repeated vertex / a vertex pair used twice) after the proper ones:
-            # it contains no point and changes nothing
+            # the source mesh lists a zero-area triangle (a repeated vertex / a vertex pair used twice) somewhere among the proper
+            # ones: it contains no point and changes nothing
             import menpo.shape as ms
             tl = np.asarray(s.trilist)
             a, b = (int(v) for v in rng.choice(len(s.points), 2, replace=False))
             extra = [[a, a, b]] if rng.random() < 0.5 else [[a, b, a]]
-            s = ms.TriMesh(s.points, trilist=np.vstack([tl, np.array(extra, dtype=tl.dtype)]))
+            pos = int(rng.integers(0, len(tl) + 1))          # anywhere in the list: before, between or after the proper triangles
+            s = ms.TriMesh(s.points, trilist=np.vstack([tl[:pos], np.array(extra, dtype=tl.dtype), tl[pos:]]))
             cls = [CachedPWA, PythonPWA][rng.integers(0, 2)]
         else:
             cls = CachedPWA if kind == "PiecewiseAffine" else PythonPWA
@@ -116,6 +117,14 @@ def make(rng, kind, d=2):
                     from menpo.image import Image
                     s = ms.TexturedTriMesh(s.points, rng.random((len(s.points), 2)), Image(rng.random((1, 5, 6))), trilist=tl_f)
         given_tl = np.array(s.trilist, copy=True)
+        if rng.random() < 0.25:
+            # the target handed over as a mesh with a triangulation of its own (other triangles, other row order): "the trilist is
+            # entirely decided by the source"
+            import menpo.shape as ms
+            from scipy.spatial import Delaunay
+            own = Delaunay(np.asarray(t.points, dtype=float)).simplices.astype(np.int64)
+            own = own[rng.permutation(len(own))][:, rng.permutation(3)]
+            t = ms.TriMesh(np.asarray(t.points), trilist=own)
 
         def build():
             # (the live object gets its own copies: the recipe's closure must not share the point clouds the object holds)
